@@ -622,3 +622,42 @@ Fixpoint split_string_loop (fuel : nat) (data delim : list Z) (index : nat) (acc
 
 Definition split_string (data delim : list Z) : option (list (list Z)) :=
   split_string_loop (S (length data)) data delim O [].
+
+(* ---------------------------------------------------------------- a nested client: blocks within blocks *)
+
+(* a keyword of a block is either a leaf (typed value) or a sub-block with its own keywords, as
+   colvar > component > atom group: the text of a sub-block is handed to a new parser object
+   (init(conf) of the sub-object), whose check_keywords then examines that text *)
+Inductive nitem :=
+| NLeaf (key : list Z) (k : kind)
+| NBlock (key : list Z) (sub : list nitem).
+
+Record ires := { ir_allowed : list Z; ir_regs : list kl_reg; ir_err : bool }.
+
+Definition is_nil (d : list Z) : bool := match d with [] => true | _ => false end.
+
+(* what one level does after its items have been looked up: check_keywords on its own text *)
+Definition level_ok (rs : list ires) (conf : list Z) : bool :=
+  negb (existsb ir_err rs) &&
+  match check_keywords (map ir_allowed rs) conf (flat_map ir_regs rs) with CK_ok => true | CK_unknown_keyword => false end.
+
+Fixpoint item_res (strict : bool) (it : nitem) (conf : list Z) {struct it} : ires :=
+  match it with
+  | NLeaf key k =>
+    let st := get_keyval strict conf
+                {| ps_allowed := []; ps_regs := []; ps_err := false; ps_oof := false; ps_values := [] |} (key, k) in
+    {| ir_allowed := to_lower key; ir_regs := ps_regs st; ir_err := ps_err st || ps_oof st |}
+  | NBlock key sub =>
+    let r := key_string_values conf key in
+    let block_ok := fun d => negb (is_nil d) && level_ok (map (fun i => item_res strict i d) sub) d in
+    {| ir_allowed := to_lower key; ir_regs := ksv_regs r;
+       ir_err := ksv_err r || ksv_oof r || negb (forallb block_ok (ksv_all r)) |}
+  end.
+
+(* a level: look up every item in the text of the level, recursively descend into the blocks found,
+   then check_keywords on the text of the level *)
+Definition nparse (strict : bool) (items : list nitem) (conf : list Z) : bool :=
+  level_ok (map (fun i => item_res strict i conf) items) conf.
+
+Definition nparse_config (strict : bool) (items : list nitem) (raw : list Z) : bool :=
+  let conf := strip_comments raw in check_braces conf O && nparse strict items conf.
